@@ -16,6 +16,7 @@ CONSTANTS
   BurstSizes = {3}
   PskIds = {}
   PskValues = {"none"}
+  JitterChoices = {99999}
   Deviations = {"F12", "F14"}
   MaxApps = 1
   Depth = 16
